@@ -202,6 +202,13 @@ func explodeNode(node *CandidateNode, context Context) error {
 	case AliasNode:
 		log.Debugf("explodeNode - an alias to %v", NodeToString(node.Alias))
 		if node.Alias != nil {
+			// an expression can make a node hold an alias to itself, text cannot: following it would never end
+			anchored := node.Alias
+			if anchored.exploding {
+				return fmt.Errorf("cannot explode an alias to a node that it is itself part of")
+			}
+			anchored.exploding = true
+			defer func() { anchored.exploding = false }()
 			node.Kind = node.Alias.Kind
 			node.Style = node.Alias.Style
 			node.Tag = node.Alias.Tag
